@@ -462,6 +462,16 @@ func (s *State) applyContract(site ssa.Instruction, key string, con *Contract, c
 		c.specErrors(x, en.Where)
 		s.assume(v.S)
 	}
+	if con.Defines != "" && len(res) == 1 {
+		if uf, ok := eng.ufuncs[con.Defines]; ok {
+			var as []string
+			for _, a := range args {
+				as = append(as, flatten(a)...)
+			}
+			s.assume(eq(res[0].S, app(uf.Name, as...)))
+			c.assumed[fmt.Sprintf("%s(x) denotes the result of %s (pure and deterministic: reads no heap or globals)", con.Defines, key)] = true
+		}
+	}
 	if con.Trusted != "" {
 		c.assumed["trusted contract of "+key+": "+con.Trusted] = true
 	}
